@@ -678,7 +678,8 @@ Lemma incarnation_inv : forall c earliest s0 reached i,
   let d := index_range c [] s0 reached in
   (last_indexed d <> -1 \/ i_start i = reached) -> i_end i <= Z.of_nat (length c) ->
   let reached' := step_reached earliest d reached i in
-  run_incarnation c earliest d i = index_range c [] s0 reached' /\ reached <= reached' <= Z.of_nat (length c).
+  run_incarnation c earliest d i = index_range c [] s0 reached' /\ reached <= reached' <= Z.of_nat (length c)
+  /\ 0 <= resume d (i_start i) earliest.
 Proof.
   intros c earliest s0 reached i He H0 Hr Hn d Hok Hend reached'.
   pose proof (last_indexed_range c s0 (Z.to_nat (reached - s0)) H0) as HL. cbn zeta in HL.
@@ -693,7 +694,7 @@ Proof.
     assert (Hcur : cur = reached).
     { unfold cur, resume. rewrite El. cbn. exact Hok. }
     rewrite Hcur in *. rewrite Z.max_r by lia.
-    split.
+    split; [|split; [|lia]].
     + change (index_from c d reached m) with (index_from c (index_range c [] s0 reached) reached m).
       replace m with (Z.to_nat (reached + Z.of_nat m - reached)) at 1 by lia.
       fold (index_range c (index_range c [] s0 reached) reached (reached + Z.of_nat m)).
@@ -706,9 +707,9 @@ Proof.
       destruct (last_indexed d <? earliest) eqn:E2; [apply Z.ltb_lt in E2; lia|reflexivity]. }
     set (l := last_indexed d) in *.
     destruct (Z_le_gt_dec (cur + Z.of_nat m) reached) as [Hle|Hgt].
-    + rewrite Z.max_l by lia. split; [|lia].
+    + rewrite Z.max_l by lia. split; [|split; lia].
       apply noop_from. intros j Hj. apply HLe; lia.
-    + rewrite Z.max_r by lia. split; [|unfold m; lia].
+    + rewrite Z.max_r by lia. split; [|split; [unfold m; lia|lia]].
       transitivity (index_from c d cur (Z.to_nat (reached - cur) + Z.to_nat (cur + Z.of_nat m - reached))%nat);
         [f_equal; lia|].
       rewrite index_from_add by lia.
@@ -736,7 +737,7 @@ Proof.
       - right. apply Z.eqb_eq in H. exact H. }
     pose proof (incarnation_inv c earliest s0 reached i He H0 Hr Hn Hcond Hok2) as Hinv. cbn zeta in Hinv.
     set (r1 := step_reached earliest (index_range c [] s0 reached) reached i) in *.
-    destruct Hinv as [Heq Hb].
+    destruct Hinv as [Heq [Hb Hcur0]].
     cbn [fold_left]. rewrite Heq in *.
     assert (Hr1a : s0 <= r1) by lia. assert (Hr1b : r1 <= Z.of_nat (length c)) by lia.
     destruct (IH r1 He H0 Hr1a Hr1b Hrest) as [r2 [Hb2 [Heq2 Hfin]]].
